@@ -68,3 +68,49 @@ func VerifTwin() {
 	vAssert("same-frame", s1.p.Frame().Pix[px] == s2.p.Frame().Pix[px])
 	vReach("end")
 }
+
+// C25 (system level): two whole memory systems alive in one process, built from images of the same kind. An operation on
+// one leaves every readable address, every clock and the cartridge RAM of the other unchanged (no state shared through
+// package-level variables or aliased slices), and writes no package-level variable.
+func VerifTwoSystems() {
+	what := vCfg("what")
+	cls := vCfg("cls")
+	s1 := newVerifSystem(uint8(vCfg("type")), uint8(vCfg("rom")), uint8(vCfg("ram")))
+	s2 := newVerifSystem(uint8(vCfg("type")), uint8(vCfg("rom")), uint8(vCfg("ram")))
+	// RAM enabled on both so that cartridge RAM is observable
+	s1.m.Write(0x0000, 0x0a)
+	s2.m.Write(0x0000, 0x0a)
+	var a1 uint16
+	if what == 0 {
+		a1 = pickAddr(cls)
+	}
+	v := vU8("v")
+	a2 := vU16("a2")
+	before := s2.m.Read(a2)
+	r0, t0, c0, p0 := s2.m.VerifRtcTicks(), s2.a.VerifTicks(), s2.t.VerifCounter(), s2.p.VerifTicks()
+	vGlobalsMark()
+	s1.apply(what, cls, a1, v, vInt("button"), vBool("pressed"))
+	vAssert("other-readable-state", s2.m.Read(a2) == before)
+	vAssert("other-clocks", s2.m.VerifRtcTicks() == r0 && s2.a.VerifTicks() == t0 && s2.t.VerifCounter() == c0 && s2.p.VerifTicks() == p0)
+	vAssert("package-state-untouched", vGlobalsUnchanged())
+	vReach("end")
+}
+
+// construction is deterministic too: two systems built from the same image, nothing else done, agree on everything
+// (clock registers of an MBC3 included)
+func VerifTwinFresh() {
+	s1 := newVerifSystem(uint8(vCfg("type")), uint8(vCfg("rom")), uint8(vCfg("ram")))
+	s2 := newVerifSystem(uint8(vCfg("type")), uint8(vCfg("rom")), uint8(vCfg("ram")))
+	a2 := vU16("a2")
+	vAssert("same-readable-state", s1.m.Read(a2) == s2.m.Read(a2))
+	vAssert("same-clock-registers", *s1.m.rtc == *s2.m.rtc)
+	// with RAM enabled, a clock register selected and latched
+	for _, s := range []*verifSystem{s1, s2} {
+		s.m.Write(0x0000, 0x0a)
+		s.m.Write(0x4000, 0x08+vU8("sel")%5)
+		s.m.Write(0x6000, 0x00)
+		s.m.Write(0x6000, 0x01)
+	}
+	vAssert("same-cartridge-window", s1.m.Read(0xa000+a2%0x2000) == s2.m.Read(0xa000+a2%0x2000))
+	vReach("end")
+}
